@@ -249,6 +249,25 @@ def wl_counting(ctx, rng, case):
         r = rng.random()
         kk = rng.choice(keys)
         if big and kind == "CountingBloomFilter" and 0.6 <= r < 0.85:
+            continue
+        if kind != "CountingBloomFilter" and not big and rng.random() < 0.06:
+            # a call the sketch refuses (no integer amount, a hash list made for a deeper sketch): nothing was added, nothing is counted
+            how = rng.choice(["None amount", "deeper hash list"])  # (a float amount is clamped, not refused, next to a cell at its limit)
+            case.op("refused", kk, how)
+            try:
+                if how == "None amount":
+                    f.add(kk, None)
+                elif how == "float amount":
+                    f.add(kk, 1.5)
+                elif kind in ("HeavyHitters", "StreamThreshold"):
+                    f.add_alt(kk, f.hashes(kk, f.depth + 2), 2)
+                else:
+                    f.add_alt(f.hashes(kk, f.depth + 2), 2)
+                raise AssertionError(f"a call the unchanged library refuses was accepted ({how})")
+            except (TypeError, IndexError):
+                ctx.count("counting_calls_refused")
+            total = sum(out.values()) - eaten
+            ctx.check(f.elements_added == total, f"elements_added changed through a REFUSED call ({how}) at step {step}", got=f.elements_added, want=total)
             continue  # with cells at the limit only additions keep the simple meaning for the counting Bloom filter
         if r < 0.6 or kind == "HeavyHitters" and r < 0.85:
             n = rng.choice([1, 1, 2, 5, 40]) if not big else rng.choice([1, 3 * 10**8, 2**31 - 1, 2**31, 2**32 - 1, 2**32 + 5, 7])
